@@ -1,7 +1,7 @@
 (* C35 — Job lifecycle leaves the process and the cache directory consistent. *)
 From Pydra Require Import Base.Prelude.
 From Pydra Require Import Model.CacheProto Spec.CacheProto Proofs.CacheProto Proofs.CacheProtoC35 Proofs.CacheProtoC10
-  Proofs.CacheProtoC12 Proofs.CacheProtoSpec.
+  Proofs.CacheProtoC12 Proofs.CacheProtoSpec Proofs.CacheProtoC35n.
 
 (* The property at full strength: after any submission by a process that is the only one using the cache root,
    however it ended (returned, raised, exception at any stage), the process is back in its directory, none of
@@ -82,3 +82,44 @@ Theorem C35_refuted_post_hook :
             runs (gl s) = 1.
 Proof. exact post_hook_witness. Qed.
 Print Assumptions C35_refuted_post_hook.
+
+(* C35 for concurrent histories ("after any job run", any number of submitters of the checksum).
+   Every interleaving of any number of processes and submissions, nobody killed, and no process `dirty`, i.e.
+   every exception so far was raised inside the try block or its handler (body, output collection, record_error).
+   What the F35 class excludes is exactly `dirty`: an exception between job.lock_acquired and the try (pre_run_task,
+   start_audit, _populate_filesystem), by post_run_task, or at a statement of the finally block - such a run leaves
+   the with block through ExcHold with a half-populated directory, and the statement is false (C35_refuted_pre_try, C35_refuted_post_hook).
+   Then, whenever nobody is inside the critical section (the marker is absent) and some execution has reached
+   job.cwd_restored (or a result was there at the start): the job directory exists, holds the complete job record and
+   a complete result, every process is outside the with block, back in its original cwd, with no info file left. *)
+Theorem C35_directory_consistent_n :
+  forall pickle unpickle bv pre tr s,
+    run pickle unpickle bv (init bv pre) tr = Some s -> nocrash_trace tr = true ->
+    (forall p, dirty (procs s p) = false) ->
+    lock (gl s) = None ->
+    pre = true \/ went_through tr = true ->
+    dir (gl s) = true /\ jobf (gl s) = Complete tt /\ (exists r, resf (gl s) = Complete r) /\
+    forall p, holds (pc (procs s p)) = false /\ cwd (procs s p) = Home /\ infos (procs s p) = 0.
+Proof. exact directory_consistent_n. Qed.
+Print Assumptions C35_directory_consistent_n.
+
+(* Which result: the one the last execution published.  A process leaves the with block through job.cwd_restored
+   with resf = Complete (errored = exception pending, outputs) (C35_finally_region, second part), the release changes
+   the marker only, and while the marker is absent no step of anybody changes the directory: *)
+Theorem C35_unlocked_directory_stable :
+  forall pickle unpickle bv pre tr s e s',
+    run pickle unpickle bv (init bv pre) tr = Some s -> nocrash_trace tr = true -> lock (gl s) = None ->
+    step pickle unpickle bv s e = Some s' -> nocrash (snd e) = true ->
+    dir (gl s') = dir (gl s) /\ jobf (gl s') = jobf (gl s) /\ resf (gl s') = resf (gl s) /\ errf (gl s') = errf (gl s).
+Proof. exact unlocked_directory_stable. Qed.
+Print Assumptions C35_unlocked_directory_stable.
+
+(* the hypotheses are met by a genuinely concurrent history: submitter 0 executes, submitter 1 arrives while 0 holds
+   the lock, waits and is served from the cache; both get the value *)
+Example C35_directory_consistent_n_example :
+  exists s, run toy_pickle toy_unpickle 7 (init 7 false) two_submitters_trace = Some s /\
+            nocrash_trace two_submitters_trace = true /\
+            (forall p, dirty (procs s p) = false) /\
+            lock (gl s) = None /\ went_through two_submitters_trace = true /\
+            ret (procs s 0) = Some (Returned (mkRes false (Some 7))) /\ ret (procs s 1) = Some (Returned (mkRes false (Some 7))).
+Proof. exact two_submitters_meet_hypotheses. Qed.
